@@ -30,10 +30,10 @@ theorem InvNum.mapN {s : State} (h : InvNum s) (f : Block → Block) (hf : Neutr
     rw [← hqp]; exact h.cidsFresh b0 hb0 q hq
   · have := h.acc
     unfold usage at *
-    show s.cur + s.phantom = sumInt ((s.blocks.map f).map Block.size) + _
+    show s.cur = sumInt ((s.blocks.map f).map Block.size) + _
     rw [List.map_map]
     have : (Block.size ∘ f) = Block.size := by funext b; exact hf.size b
-    rw [this]; exact this ▸ ‹s.cur + ↑s.phantom = sumInt (List.map Block.size s.blocks) + cnt Task.closing s.tasks›
+    rw [this]; exact this ▸ ‹s.cur = sumInt (List.map Block.size s.blocks) + cnt Task.closing s.tasks›
 
 /-! ### dropping an empty block -/
 
@@ -77,7 +77,7 @@ theorem dropBlock_inv {s : State} (h : InvNum s) {u : Nat} {b : Block} (hb : s.f
   · intro x hx; exact h.cidsFresh x (List.mem_filter.mp hx).1
   · have := h.acc
     unfold usage at *
-    show s.cur + s.phantom = sumInt ((s.blocks.filter (·.uid != u)).map Block.size) + cnt Task.closing s.tasks
+    show s.cur = sumInt ((s.blocks.filter (·.uid != u)).map Block.size) + cnt Task.closing s.tasks
     rw [sum_filter_ne _ _ _ h.uids b hb, hz]
     omega
 
@@ -184,8 +184,8 @@ theorem tickHead_inv {s : State} (h : InvNum s) : InvNum (tickHead s) := by
   unfold tickHead
   simp only
   split
-  · exact maybeTick_inv (h.frame rfl rfl rfl rfl rfl rfl rfl rfl)
-  · exact h.frame rfl rfl rfl rfl rfl rfl rfl rfl
+  · exact maybeTick_inv (h.frame rfl rfl rfl rfl rfl rfl rfl)
+  · exact h.frame rfl rfl rfl rfl rfl rfl rfl
 
 theorem tick_inv (env : Env) {s : State} (h : InvNum s) : InvNum (tick env s) := by
   unfold tick
@@ -193,8 +193,8 @@ theorem tick_inv (env : Env) {s : State} (h : InvNum s) : InvNum (tick env s) :=
   simp only
   generalize tickHead s = s0 at h0
   split
-  · exact h0.frame rfl rfl rfl rfl rfl rfl rfl rfl
-  · exact (h0.mapN _ (by intro b; exact ⟨rfl, rfl, rfl⟩)).frame rfl rfl rfl rfl rfl rfl rfl rfl
+  · exact h0.frame rfl rfl rfl rfl rfl rfl rfl
+  · exact (h0.mapN _ (by intro b; exact ⟨rfl, rfl, rfl⟩)).frame rfl rfl rfl rfl rfl rfl rfl
   · have h1 : InvNum { s0 with blocks := s0.blocks.map fun (b : Block) =>
         { b with quota := b.waitersNum + b.acquired } } :=
       h0.mapN _ (by intro b; exact ⟨rfl, rfl, rfl⟩)
@@ -204,7 +204,7 @@ theorem tick_inv (env : Env) {s : State} (h : InvNum s) : InvNum (tick env s) :=
       _ (h1.frame (s' := { s0 with
           blocks := s0.blocks.map fun (b : Block) => { b with quota := b.waitersNum + b.acquired },
           starving := decide ((s0.blocks.filter fun b => env.avgNZ.contains b.uid && !b.suppressed).length ≥ s0.max) })
-        rfl rfl rfl rfl rfl rfl rfl rfl)
+        rfl rfl rfl rfl rfl rfl rfl)
     split
     · rename_i s1 heq
       rw [heq] at hd; exact hd.fail _
@@ -230,15 +230,15 @@ theorem gcBlock_inv (u : Nat) (n : Nat) : ∀ s, InvNum s → InvNum (gcBlock u 
 
 theorem gc_inv (env : Env) {s : State} (h : InvNum s) : InvNum (gc env s) := by
   unfold gc
-  have h0 : InvNum { s with gcTimers := s.gcTimers - 1 } := h.frame rfl rfl rfl rfl rfl rfl rfl rfl
+  have h0 : InvNum { s with gcTimers := s.gcTimers - 1 } := h.frame rfl rfl rfl rfl rfl rfl rfl
   simp only
   split
-  · exact h0.frame rfl rfl rfl rfl rfl rfl rfl rfl
+  · exact h0.frame rfl rfl rfl rfl rfl rfl rfl
   · have h1 : InvNum (if ({ s with gcTimers := s.gcTimers - 1 } : State).gcReq > 1
         then { ({ s with gcTimers := s.gcTimers - 1 } : State) with
                 gcReq := 1, gcTimers := ({ s with gcTimers := s.gcTimers - 1 } : State).gcTimers + 1 }
         else { ({ s with gcTimers := s.gcTimers - 1 } : State) with gcReq := 0 }) := by
-      split <;> exact h0.frame rfl rfl rfl rfl rfl rfl rfl rfl
+      split <;> exact h0.frame rfl rfl rfl rfl rfl rfl rfl
     apply foldl_inv _ _ _ _ h1
     intro s' u hs'
     split
@@ -261,7 +261,7 @@ theorem sum_size_clear (bs : List Block) :
 /-- accounting with `k` connections already dropped from `conns` whose `_disconnect`
     task has not been created yet -/
 theorem addDiscAll_inv (l : List Nat) : ∀ (s : State), WF s →
-    s.cur + s.phantom = usage s + (l.length : Int) → s.cur ≤ s.max + discByHolder s →
+    s.cur = usage s + (l.length : Int) → s.cur ≤ s.max + discByHolder s →
     InvNum (l.foldl (fun s c => s.addTask (.discAll c false)) s) := by
   induction l with
   | nil =>
@@ -274,7 +274,7 @@ theorem addDiscAll_inv (l : List Nat) : ∀ (s : State), WF s →
     · unfold usage at *
       rw [cnt_addTask]
       simp only [List.length_cons, Task.closing, ↓reduceIte] at *
-      show s.cur + s.phantom = sumInt (s.blocks.map Block.size) + (cnt Task.closing s.tasks + 1) + _
+      show s.cur = sumInt (s.blocks.map Block.size) + (cnt Task.closing s.tasks + 1) + _
       omega
     · unfold discByHolder at *
       rw [cnt_addTask]
@@ -300,7 +300,7 @@ theorem pruneAll_inv {s : State} (h : InvNum s) : InvNum (pruneAll s) := by
   · have := h.acc
     unfold usage at *
     have hs := sum_size_clear s.blocks
-    show s.cur + s.phantom = sumInt (List.map Block.size (List.map _ s.blocks)) + cnt Task.closing s.tasks + _
+    show s.cur = sumInt (List.map Block.size (List.map _ s.blocks)) + cnt Task.closing s.tasks + _
     omega
   · exact h.cap
 
